@@ -1,4 +1,5 @@
-import DEvo.Sql.Rebuild
+import DEvo.Sql.RebuildLemmas
+import DEvo.Generated.Tables
 
 /-! # C02 — evolutions preserve existing row data (the table rebuild's copy step) -/
 
@@ -52,6 +53,11 @@ theorem evalRow_aligned (ni : List (String × Init)) :
         intendedRow, List.map_cons, intended, List.head?_cons, List.tail_cons]
       congr 1
       exact ih r hrest
+    | coalesceEmbed o s =>
+      simp only [alignedParams, List.filterMap_cons, isPlaceholder, Bool.false_eq_true, if_false, evalRow,
+        intendedRow, List.map_cons, intended]
+      congr 1
+      exact ih r hrest
 
 /-- a surviving column that no initial value touches keeps its value, whatever the parameters -/
 theorem C02_surviving (fv : List (String × Src)) (ps : List String) (r : Row) (c o : String) :
@@ -77,26 +83,102 @@ theorem C02_surviving (fv : List (String × Src)) (ps : List String) (r : Row) (
 
 /-- whenever today's parameter order coincides with the placeholder order, today's code binds
 every placeholder correctly -/
-theorem C02_partial_orders_agree (oldCols : List String) (items : List Item) (r : Row)
-    (hdecl : PlaceholdersDeclared (newInitial items) (fieldValuesOf oldCols items))
-    (hagree : paramsOf false oldCols items = paramsOf true oldCols items) :
-    evalRow (plan false oldCols items).fieldValues (plan false oldCols items).params r =
-      intendedRow (newInitial items) (fieldValuesOf oldCols items) r := by
+theorem C02_partial_orders_agree (cfg : CopyCfg) (oldCols : List String) (items : List Item) (r : Row)
+    (hdecl : PlaceholdersDeclared (effective cfg false (newInitial items)) (fieldValuesOf cfg oldCols items))
+    (hagree : paramsOf cfg oldCols items =
+      alignedParams (effective cfg false (newInitial items)) (fieldValuesOf cfg oldCols items)) :
+    evalRow (plan cfg oldCols items).fieldValues (plan cfg oldCols items).params r =
+      intendedRow (effective cfg false (newInitial items)) (fieldValuesOf cfg oldCols items) r := by
   simp only [plan, hagree]
-  have : paramsOf true oldCols items = alignedParams (newInitial items) (fieldValuesOf oldCols items) := by
-    simp [paramsOf]
-  rw [this]
   exact evalRow_aligned _ _ r hdecl
 
-/-- the repaired order is always correct (same statement, no agreement hypothesis) -/
-theorem C02_aligned (oldCols : List String) (items : List Item) (r : Row)
-    (hdecl : PlaceholdersDeclared (newInitial items) (fieldValuesOf oldCols items)) :
-    evalRow (plan true oldCols items).fieldValues (plan true oldCols items).params r =
-      intendedRow (newInitial items) (fieldValuesOf oldCols items) r := by
-  have : paramsOf true oldCols items = alignedParams (newInitial items) (fieldValuesOf oldCols items) := by
-    simp [paramsOf]
-  simp only [plan, this]
-  exact evalRow_aligned _ _ r hdecl
+/-- the declared-placeholder premise of the alignment theorems always holds for the `field_values` the
+loop builds (so it is no longer a hypothesis below) -/
+theorem placeholders_declared (cfg : CopyCfg) (hf : cfg.flagPerItem = true) (oldCols : List String)
+    (items : List Item) :
+    PlaceholdersDeclared (newInitial items) (fieldValuesOf cfg oldCols items) := by
+  intro cs hcs hp
+  unfold fieldValuesOf at hcs
+  rw [effective_id cfg hf] at hcs
+  have := placeholders_of_foldl cfg (newInitial items) (baseValues oldCols items) (by
+    intro q hq hqp
+    simp only [baseValues, List.mem_map] at hq
+    obtain ⟨x, _, e⟩ := hq
+    subst e
+    simp [isPlaceholder] at hqp) cs hcs hp
+  obtain ⟨v, hv⟩ := this
+  exact ⟨v, kget_of_mem_nodup _ (nodup_keys_newInitial items) _ _ hv⟩
+
+/-- no initial value given as SQL text (callable initial) is declared for a column that survives the
+rebuild — the only situation in which today's un-coalesced embedding is harmless -/
+def NoEmbedOnSurvivor (oldCols : List String) (items : List Item) : Prop :=
+  ∀ c s, kget (newInitial items) c = some (Init.embed s) → (survivors oldCols items).contains c = false
+
+/-- **C02, the copy step, at full strength**: with parameters passed in placeholder order, the
+embed-or-bind decision taken per initial value, and embedded SQL text coalesced on existing columns
+(or no such text declared for an existing column), EVERY column of EVERY row of the rebuilt table
+holds what the property demands (`specValue`, stated from the old row and the declared initial values
+alone): surviving values unchanged, NULLs of a column with a declared initial replaced by it, new
+columns filled with their initial value.  All column lists, item lists, rows; no size bound. -/
+theorem C02_copy_correct (cfg : CopyCfg) (ha : cfg.aligned = true) (hf : cfg.flagPerItem = true)
+    (oldCols : List String) (items : List Item)
+    (he : cfg.embedCoalesces = true ∨ NoEmbedOnSurvivor oldCols items) (r : Row) (c : String) :
+    rowGet (evalRow (plan cfg oldCols items).fieldValues (plan cfg oldCols items).params r) c =
+      specValue oldCols items r c := by
+  have hp : (plan cfg oldCols items).params =
+      alignedParams (newInitial items) (fieldValuesOf cfg oldCols items) := by
+    simp [plan, paramsOf, ha, effective_id cfg hf]
+  rw [hp]
+  show rowGet (evalRow (fieldValuesOf cfg oldCols items) _ r) c = _
+  rw [evalRow_aligned _ _ r (placeholders_declared cfg hf oldCols items), rowGet_intendedRow]
+  have hk : kget (fieldValuesOf cfg oldCols items) c =
+      match kget (newInitial items) c with
+      | none => kget (baseValues oldCols items) c
+      | some i => some (srcFor cfg (kget (baseValues oldCols items) c).isSome c i) := by
+    unfold fieldValuesOf
+    rw [effective_id cfg hf]
+    exact kget_foldl_fvStep cfg _ (nodup_keys_newInitial items) _ c
+  rw [hk, kget_baseValues]
+  unfold specValue
+  cases hn : kget (newInitial items) c with
+  | none =>
+    by_cases hs : (survivors oldCols items).contains c = true
+    · simp only [hs, if_true, intended, Option.map_none]
+      cases rowGet r c <;> rfl
+    · have hs' : (survivors oldCols items).contains c = false := by simpa using hs
+      simp only [hs', Bool.false_eq_true, if_false, Option.map_none]
+  | some i =>
+    by_cases hs : (survivors oldCols items).contains c = true
+    · cases i with
+      | param v =>
+        simp only [hs, if_true, Option.isSome_some, srcFor, intended, hn, Option.map_some, Init.value]
+      | embed s =>
+        rcases he with he | he
+        · simp only [hs, if_true, Option.isSome_some, srcFor, he, Bool.and_self, intended, Option.map_some,
+            Init.value]
+        · have := he c s hn
+          rw [hs] at this
+          exact absurd this (by simp)
+    · have hs' : (survivors oldCols items).contains c = false := by simpa using hs
+      cases i with
+      | param v =>
+        simp only [hs', Bool.false_eq_true, if_false, Option.isSome_none, srcFor, intended, hn, Option.map_some,
+          Init.value]
+      | embed s =>
+        simp only [hs', Bool.false_eq_true, if_false, Option.isSome_none, srcFor, Bool.false_and, intended,
+          Option.map_some, Init.value]
+
+/-- the order-only statement kept from before: the repaired parameter order binds every placeholder to
+its own column's initial -/
+theorem C02_aligned (cfg : CopyCfg) (ha : cfg.aligned = true) (hf : cfg.flagPerItem = true)
+    (oldCols : List String) (items : List Item) (r : Row) :
+    evalRow (plan cfg oldCols items).fieldValues (plan cfg oldCols items).params r =
+      intendedRow (newInitial items) (fieldValuesOf cfg oldCols items) r := by
+  have hp : (plan cfg oldCols items).params =
+      alignedParams (newInitial items) (fieldValuesOf cfg oldCols items) := by
+    simp [plan, paramsOf, ha, effective_id cfg hf]
+  rw [hp]
+  exact evalRow_aligned _ _ r (placeholders_declared cfg hf oldCols items)
 
 /-! ## finding F3: two parameterised initials in one rebuild -/
 
@@ -106,30 +188,77 @@ def f3Items : List Item :=
    .modifyColumn "c" (some (.param "zz"))]
 def f3Row : Row := [("id", some "1"), ("a", none), ("c", none)]
 
-/-- today's order: `new_initial` is walked in mutation order (a, d, c) while the placeholders
+/-- the repaired copy, and today's pre-F3 order -/
+def good : CopyCfg := ⟨true, true, true⟩
+def unaligned : CopyCfg := ⟨false, false, true⟩
+
+/-- unaligned order: `new_initial` is walked in mutation order (a, d, c) while the placeholders
 stand in `field_values` order (a, c, d): the NULL in `c` receives the *new column's* initial
 `'q'`, and the new column `d` receives `'zz'`. -/
 theorem C02_cex_param_misbinding :
-    evalRow (plan false f3Cols f3Items).fieldValues (plan false f3Cols f3Items).params f3Row =
+    evalRow (plan unaligned f3Cols f3Items).fieldValues (plan unaligned f3Cols f3Items).params f3Row =
       [("id", some "1"), ("a", some "7"), ("c", some "q"), ("d", some "zz")] := by decide
 
 /-- the repaired order on the same input -/
 theorem C02_fixed_witness :
-    evalRow (plan true f3Cols f3Items).fieldValues (plan true f3Cols f3Items).params f3Row =
+    evalRow (plan good f3Cols f3Items).fieldValues (plan good f3Cols f3Items).params f3Row =
       [("id", some "1"), ("a", some "7"), ("c", some "zz"), ("d", some "q")] := by decide
 
-/-- non-vacuity: the witness satisfies the hypothesis of the alignment theorems -/
-example : PlaceholdersDeclared (newInitial f3Items) (fieldValuesOf f3Cols f3Items) := by
-  intro cs hcs hp
-  have : cs ∈ [("id", Src.col "id"), ("a", Src.coalesceParam "a"), ("c", Src.coalesceParam "c"), ("d", Src.param)] := by
-    have e : fieldValuesOf f3Cols f3Items =
-        [("id", Src.col "id"), ("a", Src.coalesceParam "a"), ("c", Src.coalesceParam "c"), ("d", Src.param)] := by decide
-    rw [e] at hcs; exact hcs
-  simp only [List.mem_cons, List.mem_nil_iff, or_false] at this
-  rcases this with h | h | h | h <;> subst h
-  · simp [isPlaceholder] at hp
-  · exact ⟨"7", by decide⟩
-  · exact ⟨"zz", by decide⟩
-  · exact ⟨"q", by decide⟩
+/-- non-vacuity: the witness satisfies the premise of the alignment theorem -/
+example : PlaceholdersDeclared (newInitial f3Items) (fieldValuesOf good f3Cols f3Items) :=
+  placeholders_declared good rfl f3Cols f3Items
+
+/-! ## the copy configuration of the current source -/
+
+/-- what the translator read from `SQLiteAlterTableSQLResult.to_sql` (Generated/Tables.lean), with the
+parameter order as repaired by fix a581476 (that flag is probed on every run, see tools/vlib/props/c02.py) -/
+def current : CopyCfg := ⟨true, DEvo.Generated.copyEmbedCoalesces, DEvo.Generated.copyFlagPerItem⟩
+
+/-- the embed-or-bind decision is taken per initial value in the current source -/
+theorem C02_source_flag_per_item : DEvo.Generated.copyFlagPerItem = true := by decide
+
+/-- **C02 for the current source** (a corollary of `C02_copy_correct`): every column of every rebuilt
+row is what the property demands, provided no callable initial (SQL text) is declared for a column that
+survives — the remaining gap is finding F57 below. -/
+theorem C02_current_partial (oldCols : List String) (items : List Item)
+    (hne : DEvo.Generated.copyEmbedCoalesces = true ∨ NoEmbedOnSurvivor oldCols items) (r : Row) (c : String) :
+    rowGet (evalRow (plan current oldCols items).fieldValues (plan current oldCols items).params r) c =
+      specValue oldCols items r c :=
+  C02_copy_correct current rfl C02_source_flag_per_item oldCols items hne r c
+
+/-! ## finding F57: a callable initial on a null→non-null change overwrites every value -/
+
+def f57Cols : List String := ["id", "qty"]
+def f57Items : List Item := [.modifyColumn "qty" (some (.embed "1 + 1"))]
+def f57Row : Row := [("id", some "1"), ("qty", some "7")]
+
+/-- today (no coalesce around embedded text): the existing value 7 is replaced; the property demands 7 -/
+theorem C02_cex_embed_overwrites :
+    DEvo.Generated.copyEmbedCoalesces = false →
+    rowGet (evalRow (plan current f57Cols f57Items).fieldValues (plan current f57Cols f57Items).params f57Row) "qty"
+        = some "1 + 1" ∧ specValue f57Cols f57Items f57Row "qty" = some "7" := by
+  intro h
+  simp only [current, h]
+  decide
+
+/-- with the coalesce, the same input keeps its value -/
+theorem C02_fixed_embed :
+    rowGet (evalRow (plan good f57Cols f57Items).fieldValues (plan good f57Cols f57Items).params f57Row) "qty"
+      = some "7" := by decide
+
+/-- the witness is outside the premise of the partial theorem, as it must be -/
+example : ¬ NoEmbedOnSurvivor f57Cols f57Items := by
+  intro h
+  have := h "qty" "1 + 1" (by decide)
+  exact absurd this (by decide)
+
+/-! ## a stale embed flag (what a seeded change did): later plain initials are embedded too -/
+
+def staleCfg : CopyCfg := ⟨true, false, false⟩
+def staleItems : List Item := [.addColumn "seq" (some (.embed "42")), .modifyColumn "qty" (some (.param "0"))]
+
+theorem C02_cex_stale_embed_flag :
+    rowGet (evalRow (plan staleCfg f57Cols staleItems).fieldValues (plan staleCfg f57Cols staleItems).params f57Row)
+        "qty" = some "0" ∧ specValue f57Cols staleItems f57Row "qty" = some "7" := by decide
 
 end DEvo.Props.C02
